@@ -67,6 +67,19 @@ def finding_still_fails(finding):
     return check_witness(finding['witness'])[0]
 
 
+def prebuild():
+    """The corpus theorem is a kernel evaluation; if the model (with the tables regenerated from /repo) no longer
+    returns the expected HTML on some example, the theorem is false and must not be handed to the kernel (which
+    would run for a very long time before rejecting it).  Evaluated natively through the driver."""
+    spec = gen_docs.spec_examples()
+    outs = driver_batch([{'op': 'corpus.run', 'text': e['markdown']} for e in spec])
+    bad = [e['example'] for e, m in zip(spec, outs) if m != e['html']]
+    if bad:
+        return ('C02_corpus is false for the model as regenerated from this tree: SpecCheck.run differs from the '
+                'expected HTML on example(s) %s' % bad[:10])
+    return None
+
+
 def units(ctx):
     spec = gen_docs.spec_examples()
     # the data the theorem quantifies over
